@@ -9,7 +9,7 @@ from ..algebra import Extractor, Rat, Unsupported
 from ..cfg import CFG
 from ..core import Ctx
 from ..model import body_stmts, canon, dotted, kwarg, norm, walk_no_nested
-from .common import assigned_value, cmp_other, enclosing, is_cmp, pnorm, prog, resolve_local, stores_to
+from .common import assigned_value, cmp_other, enclosing, is_cmp, pnorm, prog, resolve_local, source_order, stores_to
 
 CG = "Continuum.compute_gamma"
 JOBS = {"_compute_best_alignment_job": "get_best_alignment", "_compute_soft_alignment_job": "get_best_soft_alignment",
@@ -67,23 +67,75 @@ def run(ctx: Ctx):
     ctx.check(len(jobvars) == 1, "R-C05-1", f, subs[0], f"every submit (observed and samples) uses the same job value `{sorted(jobvars)}`: same kind of alignment",
               bad_detail=f"submits use different jobs {sorted(jobvars)}: observed and chance alignments are not the same kind", key="same-job")
     jv = next(iter(jobvars))
-    assigns = [(s, norm(s.value)) for s in walk_no_nested(f.node) if isinstance(s, ast.Assign) and norm(s.targets[0]) == jv]
-    table = {}
-    for s, v in assigns:
-        ifs = enclosing(f.node, s, (ast.If,))
-        cond = norm(ifs[-1].test) if ifs else "default"
-        table[cond] = v
-    want = {"default": "_compute_best_alignment_job", "soft": "_compute_soft_alignment_job", "fast": "_compute_fast_alignment_job"}
-    ctx.check(table == want, "R-C05-1", f, assigns[0][0] if assigns else None, f"mode -> job table {table}",
-              bad_detail=f"mode -> job table is {table}, expected {want}", key="job-table")
-    # default precedes the conditional overrides
-    dflt = [s for s, v in assigns if not enclosing(f.node, s, (ast.If,))]
-    ctx.check(len(dflt) == 1 and all(f.node.body.index(dflt[0]) < f.node.body.index(enclosing(f.node, s, (ast.If,))[0]) for s, v in assigns if s is not dflt[0]),
-              "R-C05-1", f, dflt[0] if dflt else None, "the default job is set before the mode overrides", key="job-default-first")
-    rej = [i for i in f.node.body if isinstance(i, ast.If) and norm(i.test) in ("soft and fast", "fast and soft") and
-           any(isinstance(x, ast.Raise) for x in i.body)]
-    ctx.check(len(rej) == 1 and f.node.body.index(rej[0]) < f.node.body.index(W), "R-C05-1", f, rej[0] if rej else None,
-              "soft and fast together are rejected before any job is submitted", bad_detail="soft+fast is not rejected before the pool starts", key="soft-fast")
+    # which job each mode selects: the statements before the pool are evaluated once per (soft, fast), whatever their spelling
+    # (default + overrides, if/elif chain, dispatch table indexed by the two flags)
+    class _Unknown(Exception):
+        pass
+
+    def flag_value(e, mode):
+        if isinstance(e, ast.Name) and e.id in mode:
+            return mode[e.id]
+        if isinstance(e, ast.Constant) and isinstance(e.value, bool):
+            return e.value
+        if isinstance(e, ast.Call) and dotted(e.func) == "bool" and len(e.args) == 1:
+            return flag_value(e.args[0], mode)
+        if isinstance(e, ast.UnaryOp) and isinstance(e.op, ast.Not):
+            return not flag_value(e.operand, mode)
+        if isinstance(e, ast.BoolOp):
+            vals = [flag_value(v, mode) for v in e.values]
+            return all(vals) if isinstance(e.op, ast.And) else any(vals)
+        raise _Unknown(norm(e))
+
+    def job_value(e, mode, env):
+        if isinstance(e, ast.Name):
+            return env.get(e.id, e.id)
+        if isinstance(e, ast.IfExp):
+            return job_value(e.body if flag_value(e.test, mode) else e.orelse, mode, env)
+        if isinstance(e, ast.Subscript):
+            table_ = e.value if isinstance(e.value, ast.Dict) else env.get(norm(e.value))
+            if isinstance(table_, ast.Dict):
+                key = e.slice.elts if isinstance(e.slice, ast.Tuple) else [e.slice]
+                kv = tuple(flag_value(x, mode) for x in key)
+                for kk, vv in zip(table_.keys, table_.values):
+                    kelts = kk.elts if isinstance(kk, ast.Tuple) else [kk]
+                    if all(isinstance(x, ast.Constant) for x in kelts) and tuple(x.value for x in kelts) == kv:
+                        return job_value(vv, mode, env)
+                return "KeyError"
+        raise _Unknown(norm(e))
+
+    def run_mode(stmts, mode, env) -> Optional[str]:
+        for st in stmts:
+            if st is W:
+                return "pool"
+            if isinstance(st, ast.Raise):
+                return "raise"
+            if isinstance(st, ast.If):
+                names = {x.id for x in ast.walk(st.test) if isinstance(x, ast.Name)}
+                if names and names <= set(mode):
+                    r = run_mode(st.body if flag_value(st.test, mode) else st.orelse, mode, env)
+                    if r is not None:
+                        return r
+                elif any(isinstance(x, ast.Assign) and norm(x.targets[0]) == jv for x in ast.walk(st)) or (names & set(mode) and any(isinstance(x, ast.Raise) for x in ast.walk(st))):
+                    raise _Unknown(norm(st.test))
+            elif isinstance(st, ast.Assign) and len(st.targets) == 1 and isinstance(st.targets[0], ast.Name):
+                if st.targets[0].id == jv:
+                    env[jv] = job_value(st.value, mode, env)
+                elif isinstance(st.value, ast.Dict):
+                    env[st.targets[0].id] = st.value
+        return None
+
+    want_modes = {(False, False): "_compute_best_alignment_job", (True, False): "_compute_soft_alignment_job", (False, True): "_compute_fast_alignment_job", (True, True): "raise"}
+    got_modes = {}
+    try:
+        for (so, fa) in want_modes:
+            env_: dict = {}
+            r = run_mode(f.node.body, {"soft": so, "fast": fa}, env_)
+            got_modes[(so, fa)] = "raise" if r == "raise" else env_.get(jv)
+        ctx.check(got_modes == want_modes, "R-C05-1", f, subs[0], f"(soft, fast) -> job: {got_modes}",
+                  bad_detail=f"(soft, fast) -> job is {got_modes}, expected {want_modes} (soft and fast together must be rejected before any job is submitted)",
+                  key="job-table")
+    except _Unknown as e:
+        ctx.undecided("R-C05-1", f, None, f"the job selection depends on `{e}`: shape not recognised (not a verdict)", key="job-table")
     for jn, meth in JOBS.items():
         j = ctx.fn(jn, "R-C05-1")
         dp, cp = j.params[0], j.params[1]
@@ -351,7 +403,7 @@ def top_before(f, node, stmt) -> bool:
 
 
 def _pos(f, node) -> int:
-    return (getattr(node, "lineno", 0), getattr(node, "col_offset", 0))
+    return source_order(f.node).get(id(node), -1)
 
 
 def _same_block(f, a, b) -> bool:
